@@ -20,6 +20,7 @@ the box covers every ordering whose constants are below the box size (checked), 
 the whole parameter range the property quantifies over (counts 0..5, lengths 0..8).
 Nothing about the *values* of items is decided here beyond which item (the handler's own payload,
 the queue's front, a copy of the buffer) is handed on."""
+import re
 from core import RuleResult
 from effects import *
 
@@ -259,6 +260,11 @@ class Summary:
         if not gs or len(gs) != 1:
             return TOP
         g = next(iter(gs))
+        if g[3] and g[3][0].startswith("@"):
+            # the payload of an Option-valued state cell: ((*cell) as Some).0
+            root = (g[0], g[1], g[2], ())
+            if (self._alloc_kind(root) or ("?",))[0] == "optcell":
+                return ("stored",)
         kind = self._alloc_kind(g)
         ty = self._place_ty(place)
         if kind and kind[0] == "flag":
@@ -306,7 +312,7 @@ class Summary:
             v = self.read_place(p, rv["p"])
             if isinstance(v, tuple) and v and v[0] in ("captured", "item", "error", "stored", "front", "back", "bufcopy",
                                                        "window", "mapped", "tuple", "opt", "int", "bconst", "bvar", "cmp", "not",
-                                                       "and", "or", "ord"):
+                                                       "and", "or", "ord", "combined"):
                 return v
             return TOP
         if k == "cast":
@@ -415,13 +421,26 @@ class Summary:
     @staticmethod
     def _vkind(v):
         if isinstance(v, tuple) and v:
-            if v[0] in ("item", "front", "back", "bufcopy", "window", "captured", "stored", "mapped", "error"):
+            if v[0] in ("item", "front", "back", "bufcopy", "window", "captured", "stored", "mapped", "error", "combined"):
                 return v[0]
             if v[0] == "int":
                 return "int"
             if v[0] == "bconst":
                 return "const:%s" % str(v[1]).lower()
         return "other"
+
+    def _value_kind(self, p, v):
+        if isinstance(v, tuple) and v and v[0] in ("item", "front", "back", "bufcopy", "window", "captured", "stored", "mapped",
+                                                   "error", "combined"):
+            return v[0]
+        if isinstance(v, tuple) and v and v[0] == "bconst":
+            return "const:%s" % str(v[1]).lower()
+        if is_int(v):
+            p.note.append(("intpayload", v))
+            return "int"
+        if isinstance(v, tuple) and v and v[0] == "tuple":
+            return "tuple:" + ",".join(self._value_kind(p, x) or "other" for x in v[1])
+        return None
 
     def _payload_kind(self, p, c, idx):
         """what a sink_next / Subject::next hands on"""
@@ -430,13 +449,9 @@ class Summary:
             return "?"
         a = c.args[idx]
         v = self.operand(p, a)
-        if isinstance(v, tuple) and v and v[0] in ("item", "front", "back", "bufcopy", "window", "captured", "stored", "mapped", "error"):
-            return v[0]
-        if isinstance(v, tuple) and v and v[0] == "bconst":
-            return "const:%s" % str(v[1]).lower()
-        if is_int(v):
-            p.note.append(("intpayload", v))
-            return "int"
+        k0 = self._value_kind(p, v)
+        if k0 is not None:
+            return k0
         kinds = set()
         for t in b.operand_prov(a):
             if t[0] == "param" and t[1] == self.item_param:
@@ -453,8 +468,11 @@ class Summary:
                     kinds.add("other")
             else:
                 gs = self._gcells([t]) or set()
-                ks = {(self._alloc_kind(g) or ("?",))[0] for g in gs}
-                kinds.add("bufcopy" if ks == {"cont"} else "other")
+                ks = {(self._alloc_kind((g[0], g[1], g[2], ())) or ("?",))[0] for g in gs}
+                if ks == {"cont"}:
+                    kinds.add("elem" if any("[]" in g[3] for g in gs) else "bufcopy")
+                else:
+                    kinds.add("other")
         return "+".join(sorted(kinds)) if kinds else "?"
 
     def _call(self, p, c, out):
@@ -606,7 +624,6 @@ class Summary:
             x_, y_ = self.operand(p, c.args[0], True), self.operand(p, c.args[1], True)
             if is_int(x_) and is_int(y_):
                 return done(p, ("cmp", {"lt": "Lt", "le": "Le", "gt": "Gt", "ge": "Ge"}[last], x_, y_))
-            return done(p)
         if (path.startswith("core::num::") or path.startswith("std::num::")) and len(c.args) == 2 and last in (
                 "checked_sub", "checked_add", "saturating_sub", "saturating_add", "wrapping_add", "wrapping_sub"):
             x_, y_ = self.operand(p, c.args[0], True), self.operand(p, c.args[1], True)
@@ -636,6 +653,20 @@ class Summary:
                 q.pc.append(b_not(le))
                 done(q, y_ if last == "min" else x_)
                 return
+            return done(p)
+        if path in ("std::ops::Add::add", "std::ops::AddAssign::add_assign") and len(c.args) == 2 and not (
+                is_int(self.operand(p, c.args[0], True)) and is_int(self.operand(p, c.args[1], True))):
+            ks = sorted(self._payload_kind(p, c, i) for i in (0, 1))
+            p.trace.append(("combine", "+".join(ks)))
+            return done(p, ("combined",))
+        if path in ("std::cmp::PartialOrd::lt", "std::cmp::PartialOrd::le", "std::cmp::PartialOrd::gt", "std::cmp::PartialOrd::ge") and len(c.args) == 2:
+            k1, k2 = self._payload_kind(p, c, 0), self._payload_kind(p, c, 1)
+            if {k1, k2} == {"item", "stored"}:
+                op_ = last
+                if k1 == "stored":      # stored OP item  ==  item (mirrored OP) stored
+                    op_ = {"lt": "gt", "gt": "lt", "le": "ge", "ge": "le"}[op_]
+                e_ = {"lt": ("bvar", "in:lt"), "gt": ("bvar", "in:gt"), "le": b_not(("bvar", "in:gt")), "ge": b_not(("bvar", "in:lt"))}[op_]
+                return done(p, e_)
             return done(p)
         if a == "fw_call":
             dty = b.locals[dl]["ty"] if dl is not None else None
@@ -667,6 +698,10 @@ class Summary:
                 p.cells[g] = TRUE
                 p.trace.append(("remember", self._payload_kind(p, c, 1)))
                 return done(p, ("opt", old, ("stored",)) if name == "replace" else ("stored",))
+        if path in ("std::iter::Iterator::rev", "std::iter::DoubleEndedIterator::next_back", "std::iter::DoubleEndedIterator::rfold",
+                    "std::iter::DoubleEndedIterator::rfind"):
+            p.trace.append(("reversed",))
+            return done(p)
         if a in ("obs_next", "obs_error", "obs_complete"):
             # a side observer built from the user's callbacks (tap)
             p.trace.append(("user_fn", self._payload_kind(p, c, 1) if a != "obs_complete" else "?"))
@@ -701,7 +736,7 @@ class Summary:
                     if norm(ty_adt(ty) or "") in ("std::vec::Vec", "std::collections::VecDeque"):
                         return done(p, ("bufcopy",))
             if isinstance(v, tuple) and v and v[0] in ("opt", "item", "front", "back", "bufcopy", "window", "int", "tuple", "captured",
-                                                       "stored", "mapped", "error", "bvar", "bconst"):
+                                                       "stored", "mapped", "error", "bvar", "bconst", "combined"):
                 if v[0] == "opt" and path.endswith("unwrap"):
                     return done(p, v[2])
                 return done(p, v)
@@ -889,7 +924,7 @@ class Summary:
 
 
 # ---- operator tables ------------------------------------------------------------------------
-ALPHABET = {"user_fn", "remember", "sink_next", "sink_complete", "sink_complete_force", "sink_error", "abort", "finalize", "push_back", "push_front",
+ALPHABET = {"user_fn", "remember", "combine", "reversed", "sink_next", "sink_complete", "sink_complete_force", "sink_error", "abort", "finalize", "push_back", "push_front",
             "pop_front", "pop_back", "clear", "take_all", "window_next", "window_complete", "window_error", "store",
             "panic", "loop", "opaque", "cont_replace", "cont_truncate", "cont_drain", "cont_retain", "cont_remove",
             "cont_insert", "cont_append", "cont_extend", "cont_split_off", "cont_resize", "cont_swap_remove"}
@@ -1014,6 +1049,49 @@ OPERATORS = {
 }
 
 
+def _end_trace(tr):
+    out = []
+    for x in tr:
+        if x[0] == "sink_next":
+            out.append("emit(%s)" % x[1])
+        elif x[0] in ("sink_complete", "sink_complete_force"):
+            out.append("complete")
+        elif x[0] == "sink_error":
+            out.append("error")
+        elif x[0] in ("window_complete", "window_error", "loop", "panic", "opaque", "reversed", "pop_front", "pop_back", "clear", "take_all"):
+            out.append(x[0])
+    return out
+
+
+def end_spec(name, role, qlen, tr):
+    """what the operator does when the source ends after the items seen so far"""
+    t = [x for x in _end_trace(tr) if x not in ("clear", "take_all")]
+    if role == "E":
+        want = ["window_error", "error"] if name == "window_with_count" else ["error"]
+        return None if t == want else "does %s, expected %s" % (t, want)
+    if name in ("take", "skip", "skip_last"):
+        return None if t == ["complete"] else "does %s, expected ['complete']" % t
+    if name == "window_with_count":
+        return None if t == ["window_complete", "complete"] else "does %s, expected ['window_complete', 'complete']" % t
+    if name == "buffer_with_count":
+        want = (["emit(bufcopy)"] if qlen and qlen > 0 else []) + ["complete"]
+        return None if t == want else "does %s with %s item(s) buffered, expected %s" % (t, qlen, want)
+    if name == "take_last":
+        # flush the kept items oldest first, then complete (the loop is cut after two rounds: a cut path ends in `loop`)
+        if "reversed" in t or "pop_back" in t:
+            return "flushes the kept items newest first"
+        body = [x for x in t if x not in ("pop_front",)]
+        cut = body and body[-1] == "loop"
+        core = body[:-1] if cut else body
+        if not cut and (not core or core[-1] != "complete"):
+            return "does %s, expected the kept items then 'complete'" % t
+        items = core if cut else core[:-1]
+        if any(x != "emit(elem)" for x in items):
+            return "does %s, expected only the kept items before 'complete'" % t
+        return None
+    return None
+
+
 def count_rule(P, E, H):
     r = RuleResult("COUNT", "counting operators: for every count and every item index, the item handler's extracted "
                             "guarded transitions emit / hold back / complete exactly as the operator's definition says")
@@ -1030,7 +1108,12 @@ def count_rule(P, E, H):
         found.add(root)
         try:
             S = Summary(P, E, hb)
-            _check_operator(r, P, S, root, name, spec, cmin, hb)
+            ends = {}
+            for role, kind in (("C", "none"), ("E", "error")):
+                if t["handlers"].get(role) is None:
+                    raise Undecided("no %s handler" % role)
+                ends[role] = Summary(P, E, t["handlers"][role], item_kind=kind)
+            _check_operator(r, P, S, root, name, spec, cmin, hb, ends)
         except Undecided as e:
             r.error("COUNT: %s not decidable in the affine/ordering abstraction: %s" % (name, e))
     for root in OPERATORS:
@@ -1039,7 +1122,7 @@ def count_rule(P, E, H):
     return r
 
 
-def _check_operator(r, P, S, root, name, spec, cmin, hb):
+def _check_operator(r, P, S, root, name, spec, cmin, hb, ends=None):
     bounds = sorted(set(S.bounds.values()))
     ints = [g for g, k in S.cellinfo.items() if k and k[0] == "int" and any(g in p.cells or S._sym(g) in str(p.pc) for p in S.paths)]
     conts = [g for g, k in S.cellinfo.items() if k and k[0] == "cont"]
@@ -1062,6 +1145,32 @@ def _check_operator(r, P, S, root, name, spec, cmin, hb):
         for k in range(1, K_MAX + 1):
             sigma = dict(state)
             sigma[bsym] = count
+            # the source may end here, after k-1 items
+            for role, SE in sorted((ends or {}).items()):
+                for s_ in SE.symbols():
+                    if s_ not in sigma:
+                        raise Undecided("%s-handler consults `%s`, which the abstraction does not model" % (role, s_))
+                eouts = SE.step(sigma, ALPHABET)
+                steps += 1
+                if not eouts:
+                    raise Undecided("no feasible %s path after %d items, count %d" % (role, k - 1, count))
+                ql = state.get("len:" + S._sym(conts[0])) if conts else None
+                saw_flush = False
+                for (tr_, nx_), (p_, cells_) in eouts.items():
+                    why = end_spec(name, role, ql, tr_)
+                    saw_flush = saw_flush or any(x[0] == "sink_next" for x in tr_)
+                    if why:
+                        kind = "source %s: %s" % ({"C": "completes", "E": "fails"}[role], re.sub(r"\d+", "N", why))
+                        if kind not in reported:
+                            reported.add(kind)
+                            r.violate((root, "counting", kind), "%s(%d) when the source %s after %d item(s): %s"
+                                      % (name, count, {"C": "completes", "E": "fails"}[role], k - 1, why), body=SE.b)
+                if name == "take_last" and role == "C" and ql and not saw_flush:
+                    kind = "source completes: kept items not flushed"
+                    if kind not in reported:
+                        reported.add(kind)
+                        r.violate((root, "counting", kind), "take_last(%d): %d item(s) are kept but no path of the completion handler "
+                                  "hands them on" % (count, ql), body=SE.b)
             outs = S.step(sigma, ALPHABET)
             steps += 1
             if not outs:
@@ -1080,7 +1189,6 @@ def _check_operator(r, P, S, root, name, spec, cmin, hb):
                                                                           "loop": "loops", "opaque": "calls an emitting function the abstraction cannot see"}.get(x[0], x[0])))
                 for e in errs:
                     # one report per kind of deviation: strip the numbers for the key
-                    import re
                     kind = re.sub(r"\d+", "N", e)
                     if kind in reported:
                         continue
